@@ -1,7 +1,7 @@
 //! C26 — yq results do not depend on the input's syntax.
 //!
 //! `run <prog hex> <br n toks> <hexA> <br n toks> <hexB> <json hex>`: one data tree (a sequence of
-//! sub-trees) rendered as block YAML (A), flow YAML (B) and JSON; the CLI (`SV_CLI`) evaluates
+//! 24 sub-trees) and five programs joined by `,` rendered as block YAML (A), flow YAML (B) and JSON; the CLI (`SV_CLI`) evaluates
 //! `.[] | (prog)` with `-o json -I 0` on each (JSON with `-p json`); answer `SAME <hash>` when exit
 //! code and stdout agree, else `DIFF …`.  The driver checks that all three renderings denote the same
 //! tree (loadRef on A and B, its JSON reader on the JSON) and answers `SAME`.
@@ -175,14 +175,14 @@ pub const PROGRAMS: &[&str] = &[
 ];
 
 pub fn gen(tier: Tier, r: &mut Rng, emit: &mut dyn FnMut(String)) {
-    let n = if tier == Tier::Quick { 40 } else { 400 };
+    let n = if tier == Tier::Quick { 16 } else { 300 };
     let o = GenOpts { block_scalars: true, comments: true, breaks: false, anchors: false, multidoc: false, max_depth: 3 };
     let mut made = 0;
     let mut attempts = 0;
     while made < n && attempts < n * 50 {
         attempts += 1;
         // a block sequence of K generated sub-trees
-        let k = 12;
+        let k = 24;
         let mut items = Vec::new();
         for _ in 0..k {
             let d = {
@@ -208,7 +208,9 @@ pub fn gen(tier: Tier, r: &mut Rng, emit: &mut dyn FnMut(String)) {
         }
         let mut js = String::new();
         to_json(&tree, &mut js);
-        let prog = PROGRAMS[made % PROGRAMS.len()];
+        // five programs per CLI run (comma = concatenated output streams): fewer process spawns
+        let prog = (0..5).map(|j| format!("({})", PROGRAMS[(made * 5 + j) % PROGRAMS.len()])).collect::<Vec<_>>().join(", ");
+        let prog = prog.as_str();
         emit(format!(
             "C26 run {} {} {} {} {} {}",
             hex_bytes(prog.as_bytes()),
